@@ -288,14 +288,17 @@ def mrf_variants(case, geometry_kind="default", callable_way=True):
 
 
 # ---------------------------------------------------------------- realisation: Gaussian input forms
-def gaussian_param(shape, data, how="ndarray"):
+def gaussian_param(shape, data, how="ndarray", pow2=0):
+    """the input of one Gaussian form in the container `how`; pow2: the exact data times 2**pow2 (ScalingLaw of the spec;
+    multiplication by a power of two is exact in binary floating point)"""
     import scipy.sparse as sp
+    f = math.ldexp(1.0, int(pow2))
     if shape == "scalar":
-        return fl(data)
+        return fl(data) * f
     if shape == "vector":
-        v = vec(data)
+        v = vec(data) * f
         return v.tolist() if how == "list" else v
-    M = mat(data)
+    M = mat(data) * f
     if shape == "sparse":
         if how == "dia":
             return sp.dia_matrix(M)
@@ -303,6 +306,20 @@ def gaussian_param(shape, data, how="ndarray"):
             return sp.csc_matrix(M)
         return sp.csr_matrix(M)
     return M.tolist() if how == "list" else M
+
+
+def scaled_instances(case):
+    """the magnitudes at which the spec states a Gaussian case again (ScalingLaw): list of dicts with the exponent e of
+    a = 4^e, the powers of two multiplying each input form / the deviation / the gradient, and the expected log-density."""
+    out = []
+    for sc in case.get("scaled", []):
+        out.append({"e": int(sc["e"]), "form_pow2": {k: int(v) for k, v in sc["form_pow2"].items()}, "dev_pow2": int(sc["dev_pow2"]),
+                    "grad_pow2": int(sc["grad_pow2"]), "logpdf": sc["logpdf"]})
+    return out
+
+
+def scaled_point(mean, x, sc):
+    return np.asarray(mean, dtype=float) + math.ldexp(1.0, sc["dev_pow2"]) * (np.asarray(x, dtype=float) - np.asarray(mean, dtype=float))
 
 
 def is_diag(data):
